@@ -399,6 +399,34 @@ def mix_mutation(rng, doc):
     return "mix %s+%s" % (allow, deny)
 
 
+def dup_scope_mutation(rng, doc):
+    """Several structure rules with the SAME scope string (the later one wins at match time): every one of them is still part of
+    the configuration and must pass the gate - siblings, limits, warn points, allow/deny lists of a shadowed rule included."""
+    s = doc.setdefault("structure", {})
+    if not isinstance(s, dict):
+        return "dup-scope skipped"
+    rules = s.setdefault("rules", [])
+    if not isinstance(rules, list):
+        return "dup-scope skipped"
+    scope = rng.choice(["src/**", "src/components/**", "**", "tests/**"])
+    bad = rng.random() < 0.8
+    sib = copy.deepcopy(rng.choice(SIBLINGS[3:] if bad else SIBLINGS[:3]))
+    carrier = {"scope": scope, "siblings": sib}
+    r = rng.random()
+    if r < 0.15:
+        carrier = {"scope": scope, "max_files": rng.choice([-5, -2])}
+    elif r < 0.25:
+        carrier = {"scope": scope, "max_files": 3, "warn_files_at": rng.choice([3, 7])}
+    elif r < 0.32:
+        carrier = {"scope": scope, "allow_extensions": [".rs"], "deny_extensions": [".exe"]}
+    plain = [{"scope": scope, "max_files": rng.choice([5, 50])} for _ in range(rng.choice([1, 1, 2]))]
+    pos = rng.choice(["first", "first", "first", "last", "middle"])
+    seq = [carrier] + plain if pos == "first" else plain + [carrier] if pos == "last" else plain[:1] + [carrier] + plain[:1]
+    at = rng.randrange(len(rules) + 1)
+    rules[at:at] = seq
+    return "dup-scope %s carrier %s (%s)" % (scope, pos, "malformed" if bad or r < 0.32 else "well-formed")
+
+
 def mutate(rng, bases):
     name = rng.choice(list(bases))
     doc = copy.deepcopy(bases[name])
@@ -410,6 +438,8 @@ def mutate(rng, bases):
             muts.append(pair_mutation(rng, doc))
         elif r < 0.18:
             muts.append(mix_mutation(rng, doc))
+        elif r < 0.25:
+            muts.append(dup_scope_mutation(rng, doc))
         else:
             path, kind = rng.choice(SCHEMA)
             v = pick_value(rng, kind)
